@@ -91,6 +91,14 @@ def re_not_class(ranges):
 ASCII_DIGIT = z3.Range("0", "9")
 
 
+def not_contains(s, lit: str):
+    """s does not contain the literal `lit`. For single characters stated as regex membership (z3 decides
+    InRe-conjunctions fast but is slow on negated str.contains next to a regex constraint)."""
+    if len(lit) == 1:
+        return z3.InRe(s, z3.Star(re_not_class([(ord(lit), ord(lit))])))
+    return z3.Not(z3.Contains(s, z3.StringVal(lit)))
+
+
 def str_in_class_star(s, cls):
     return z3.InRe(s, z3.Star(cls))
 
@@ -183,6 +191,14 @@ def b_int(I, args, kw):
         if I.ctx.decide(z3.fpIsInf(v.z), "int(inf)"):
             raise PyExc("OverflowError")
         return SInt(z3.ToInt(z3.fpToReal(z3.fpRoundToIntegral(z3.RTZ(), v.z))))
+    if isinstance(v, SXReal):
+        if I.ctx.decide(v.nan, "int(nan)"):
+            raise PyExc("ValueError")
+        if I.ctx.decide(v.inf != 0, "int(inf)"):
+            raise PyExc("OverflowError")
+        return SInt(z3.If(v.r >= 0, z3.ToInt(v.r), -z3.ToInt(-v.r)))
+    if isinstance(v, (TheoryObj, SOpaque)):
+        return I.call_method(v, "__int__", [], {})
     if isinstance(v, str):
         try:
             return int(v)
@@ -195,23 +211,38 @@ def b_int(I, args, kw):
     raise PyExc("TypeError", f"int({type(v).__name__})")
 
 
+PYINT = z3.Function("py.int_of_str", z3.StringSort(), z3.IntSort())
+
+
 def int_of_str(I, s):
     """int(str): T-py axiom INT-PARSE.
     accepted  <=>  s in WS* [+-]? Nd (_? Nd)* WS*   (CPython int() grammar, base 10)
-    value: for ASCII-digit-only payloads StrToInt; otherwise an unspecified natural number."""
-    I.ctx.use("T-py:int(str) grammar = WS* [+-]? Nd(_?Nd)* WS*")
-    ws, nd = re_ws(), re_decimal()
+    value: the function PYINT(s); for ASCII-digit-only payloads PYINT(s) = StrToInt(s); non-negative without '-'."""
+    I.ctx.use("T-py:int(str) grammar = WS* [+-]? Nd(_?Nd)* WS*; value = a function of the string")
+    c = I.ctx
+    r = PYINT(s)
+    if c.decide(z3.InRe(s, z3.Plus(ASCII_DIGIT)), "int-ascii"):
+        c.assume(r == z3.StrToInt(s))
+        c.assume(r >= 0)
+        return SInt(r)
+    nd = re_decimal()
+    if c.decide(z3.InRe(s, z3.Plus(nd)), "int-all-decimal"):
+        c.assume(r >= 0)
+        return SInt(r)
+    if c.decide(z3.InRe(s, z3.Concat(z3.Re("-"), z3.Plus(ASCII_DIGIT))), "int-ascii-neg"):
+        c.assume(r == -z3.StrToInt(z3.SubString(s, 1, z3.Length(s) - 1)))
+        return SInt(r)
+    ws = re_ws()
     body = z3.Concat(nd, z3.Star(z3.Concat(z3.Option(z3.Re("_")), nd)))
-    sign = z3.Option(z3.Union(z3.Re("+"), z3.Re("-")))
-    full = z3.Concat(z3.Star(ws), sign, body, z3.Star(ws))
-    if not I.ctx.decide(z3.InRe(s, full), "int-parse-ok"):
-        raise PyExc("ValueError", "invalid literal for int()")
-    if I.ctx.decide(z3.InRe(s, z3.Plus(ASCII_DIGIT)), "int-ascii"):
-        return SInt(z3.StrToInt(s))
-    if I.ctx.decide(z3.InRe(s, z3.Concat(z3.Re("-"), z3.Plus(ASCII_DIGIT))), "int-ascii-neg"):
-        return SInt(-z3.StrToInt(z3.SubString(s, 1, z3.Length(s) - 1)))
-    r = I.ctx.fresh_int("intval")
-    return SInt(r)
+    unsigned = z3.Concat(z3.Star(ws), z3.Option(z3.Re("+")), body, z3.Star(ws))
+    if c.decide(z3.InRe(s, unsigned), "int-parse-unsigned"):
+        c.assume(r >= 0)
+        return SInt(r)
+    negative = z3.Concat(z3.Star(ws), z3.Re("-"), body, z3.Star(ws))
+    if c.decide(z3.InRe(s, negative), "int-parse-negative"):
+        c.assume(r <= 0)
+        return SInt(r)
+    raise PyExc("ValueError", "invalid literal for int()")
 
 
 def b_float(I, args, kw):
@@ -766,7 +797,7 @@ def m_rsplit(I, recv, args, kw):
         return PList([recv])
     head, tail = c.fresh_str("rsh"), c.fresh_str("rst")
     c.assume(s == z3.Concat(head, sz, tail))
-    c.assume(z3.Not(z3.Contains(tail, sz)))
+    c.assume(not_contains(tail, sep))
     c.use("T-py:str.rsplit(sep,1) definitional")
     return PList([pyops.mk_str(head), pyops.mk_str(tail)])
 
@@ -784,7 +815,7 @@ def m_split(I, recv, args, kw):
             return PList([recv])
         head, tail = c.fresh_str("sph"), c.fresh_str("spt")
         c.assume(s == z3.Concat(head, sz, tail))
-        c.assume(z3.Not(z3.Contains(head, sz)))
+        c.assume(not_contains(head, sep))
         return PList([pyops.mk_str(head), pyops.mk_str(tail)])
     hook = I.reg.builtins.get("__split_symbolic__")
     if hook is None:
@@ -805,7 +836,7 @@ def m_replace(I, recv, args, kw):
     if len(old) == 1 and len(new) == 1:
         r = c.fresh_str("rpl")
         c.assume(z3.Length(r) == z3.Length(s))
-        c.assume(z3.Not(z3.Contains(r, z3.StringVal(old))) if old != new else r == s)
+        c.assume(not_contains(r, old) if old != new else r == s)
         c.use("T-py:str.replace(c1,c2) over-approximated: same length, no c1 left")
         return SStr(r)
     r = c.fresh_str("rpl")
